@@ -81,6 +81,11 @@ class Ctx:
                 names[fi.module] = g
             enclosing = ()
             bad = undefined_reads(fi.node, names[fi.module], enclosing)
+            from .defined import swapped_arguments
+            sw = swapped_arguments(self.prog, mi, fi.cls, fi.node)
+            chk.ob(f'{chk.pid}.arguments', qn, not sw, loc(fi, sw[0][0]) if sw else loc(fi, fi.node),
+                   'arguments passed by name to a callee of the package sit in the positions of the parameters of the same name (no two swapped)',
+                   got='; '.join(w for _, w in sw[:2]) if sw else '')
             chk.ob(f'{chk.pid}.defined', qn, not bad, loc(fi, bad[0][1]) if bad else loc(fi, fi.node),
                    'every name the function reads is bound on the way: nothing is read that no statement defines, and a local bound '
                    'in a try body is also bound by each handler that falls through to its use (no NameError part-way)',
